@@ -420,7 +420,7 @@ def gen_corpora(ctx):
         ctx.count(key=case, nontrivial=len(classes) > 1 + (case["fmt"] == "export"), classes=classes)
         if len(classes) >= 6:
             ctx.sample({"fmt": case["fmt"], "opts": case["opts"], "file": encode(case["fmt"], case)[:1500]}, cap=3)
-    ctx.hyp(corpus_case(8 if quick else 14, 4 if quick else 8), body, max_examples=900 if quick else 6000, shrink=False, smaller=smaller_corpus)
+    ctx.hyp(corpus_case(8 if quick else 14, 4 if quick else 8), body, max_examples=900 if quick else 2500, shrink=False, smaller=smaller_corpus)
 
 
 def smaller_corpus(case):
